@@ -557,7 +557,12 @@ type waitState struct {
 }
 
 // fresh: no traffic before the state is set up (first use of the client)
-func (w waitState) fresh() bool { return strings.HasPrefix(w.name, "first-call") }
+func (w waitState) fresh() bool {
+	return strings.HasPrefix(w.name, "first-call") || strings.HasPrefix(w.name, "unused")
+}
+
+// idle: no call is in flight when Close is called
+func (w waitState) idle() bool { return strings.HasPrefix(w.name, "unused") }
 
 var waitStates = []waitState{
 	{"zk-silent", func(c *simCluster) { atomic.StoreInt32(&c.zkSilent, 1) }},
@@ -599,9 +604,12 @@ var closeOnlyStates = []waitState{
 			}
 		}
 	}},
+	// a client that was never used is closed while ZooKeeper is unreachable; a call made afterwards
+	// is refused and must not leave anything behind that keeps looking for hbase:meta
+	{"unused-zk-down", func(c *simCluster) { atomic.StoreInt32(&c.zkErr, 1<<20) }},
 	// the connection object for a regionserver is still being constructed (the factory has not
 	// returned) when Close is called; it completes a moment later
-	{"factory-slow", func(c *simCluster) { c.slowNew = 300 * time.Millisecond }},
+	{"first-call-factory-slow", func(c *simCluster) { c.slowNew = 300 * time.Millisecond }},
 	// ZooKeeper answers the pending "where is meta" lookup only after Close has returned
 	{"zk-slow", func(c *simCluster) {
 		c.zkHold = make(chan struct{})
@@ -941,12 +949,14 @@ func closeScenarioAfter(state *waitState, wait time.Duration) string {
 		state.setup(c)
 		// force re-resolution so that the wait state is actually entered
 		c.mu.Unlock()
-		resCh = make(chan string, 1)
-		go func() {
-			g, _ := hrpc.NewGet(context.Background(), []byte("ns:t"), []byte("k"))
-			_, err := sc.cl.Get(g)
-			resCh <- classOf(err)
-		}()
+		if !state.idle() {
+			resCh = make(chan string, 1)
+			go func() {
+				g, _ := hrpc.NewGet(context.Background(), []byte("ns:t"), []byte("k"))
+				_, err := sc.cl.Get(g)
+				resCh <- classOf(err)
+			}()
+		}
 		time.Sleep(wait)
 		if wait > time.Second {
 			name = "long-" + name
@@ -1096,6 +1106,46 @@ func setSleepOverride(f func(ctx context.Context, backoff time.Duration) (time.D
 	}
 }
 
+// metaSlowScenario (C04): hbase:meta fails to answer exactly one lookup within the client's
+// region lookup timeout (it is restarting, or being moved) and answers the next one. The caller's
+// own context is alive throughout, so (a) a first request for an uncached region and (b) a request
+// whose cached region has to be re-established after a NotServingRegion answer both succeed.
+func metaSlowScenario(reestablish bool) string {
+	setSleepOverride(nil)
+	c := newSimCluster()
+	r := c.addRegion(nil, []byte("t"), nil, nil, "rs1:1")
+	sc := newSimClient(c, gohbase.RegionLookupTimeout(300*time.Millisecond))
+	defer sc.cl.Close()
+	get := func(k string) string {
+		ctx, cancel := context.WithTimeout(context.Background(), 8*time.Second)
+		defer cancel()
+		g, _ := hrpc.NewGet(ctx, []byte("t"), []byte(k))
+		_, err := sc.cl.Get(g)
+		return classOf(err)
+	}
+	name := "meta-slow-first-lookup"
+	var results []string
+	if reestablish {
+		name = "meta-slow-reestablish"
+		results = append(results, get("warm"))
+		c.mu.Lock()
+		r.addr = "rs2:1" // the region moves: the cached location answers NotServingRegion
+		c.mu.Unlock()
+	}
+	c.mu.Lock()
+	c.metaSwallow = 1
+	c.mu.Unlock()
+	results = append(results, get("k"))
+	results = append(results, get("k2"))
+	unavailable := 0
+	for _, ok := range sc.v.VerifAvailability() {
+		if !ok {
+			unavailable++
+		}
+	}
+	return fmt.Sprintf("c04 script %s %s unavailable=%d", name, strings.Join(results, ","), unavailable)
+}
+
 type zkFixed string
 
 func (z zkFixed) LocateResource(zk.ResourceName) (string, error) { return string(z), nil }
@@ -1174,6 +1224,12 @@ func init() {
 		runSharded("C04", tier, seed, out, 16, func(shard, nsh int, emit func(string)) {
 			for i := shard; i < n; i += nsh {
 				emit(seqScenario(NewRNG(seed, fmt.Sprintf("c04-%d", i)), "c04"))
+			}
+			if shard == 0 {
+				emit(metaSlowScenario(false))
+			}
+			if shard == 1%nsh {
+				emit(metaSlowScenario(true))
 			}
 		})
 	}
